@@ -2,7 +2,10 @@ module verifharness
 
 go 1.22.0
 
-require github.com/jmattheis/goverter v0.0.0
+require (
+	github.com/jmattheis/goverter v0.0.0
+	gopkg.in/yaml.v3 v3.0.1
+)
 
 require (
 	github.com/dave/jennifer v1.6.0 // indirect
